@@ -30,7 +30,7 @@ def run(ctx):
                                        properties=["AllComplete"]), label="liveness n=2", timeout=3000)
     # negative control: the model of the code as it was found does deadlock (the invariant is not vacuous)
     neg = ctx.tlc("Conc", vf.cfg_text(constants={"Ops": TABLE_OPS | {"stop", "fsmopen", "fsmidle"}, "NProcs": 2, "Discipline": "original"}, invariants=INV),
-                  workers=4, label="negative control (original discipline)", count=False)
+                  workers=4, label="negative control (original discipline)", count=False, expect_violation=True)
     if neg.ok:
         raise vf.Infra("the model of the original lock discipline does not deadlock: the Conc invariants are vacuous")
     behs = scenarios(ctx, TABLE_OPS, 2, "n=2") + scenarios(ctx, TABLE_OPS, 3, "n=3")
